@@ -533,17 +533,19 @@ fn rejections(ctx: &mut Ctx, rng: &mut Rng) {
     img::<Rgb565>(ctx, &case, &data, p, area);
     img::<Rgb888>(ctx, &case, &data, p, area);
     // raw load/store with out-of-range indices
-    let idx = *rng.pick(&[0usize, 1, 7, 8, 9, 63, 64, 1 << 20, usize::MAX / 8, usize::MAX / 4 + 1, usize::MAX / 3 + 1, usize::MAX / 3 + 2, usize::MAX / 3 * 2 + 2, usize::MAX / 2 + 1, usize::MAX - 1, usize::MAX]);
-    let icase = || format!("raw index {}", idx);
+    let buf_len = rng.usizer(0, 12);
+    let idx = *rng.pick(&[0usize, 1, 2, 3, 4, 5, 6, 7, 8, 9, 10, 11, 12, 13, 63, 64, 1 << 20, usize::MAX / 8, usize::MAX / 4 + 1, usize::MAX / 3 + 1, usize::MAX / 3 + 2, usize::MAX / 3 * 2 + 2, usize::MAX / 2 - 1, usize::MAX / 2, usize::MAX / 2 + 1, usize::MAX / 3 - 1, usize::MAX / 3, usize::MAX / 4 - 1, usize::MAX / 4, usize::MAX - 1, usize::MAX]);
+    let icase = || format!("raw index {} on a buffer of {} bytes", idx, buf_len);
     macro_rules! ls {
         ($r:ty) => {{
-            let mut buf = [0x5Au8; 8];
+            let mut storage = [0x5Au8; 12];
+            let buf = &mut storage[..buf_len];
             monitored(ctx, concat!(stringify!($r), "::load/store"), &icase, || {
-                let a = <$r>::load::<LittleEndianMsb0>(&buf, idx).is_some();
-                let b = <$r>::load::<BigEndianLsb0>(&buf, idx).is_some();
-                let c = <$r>::from_u32(0x1234_5678).store::<LittleEndianMsb0>(&mut buf, idx).is_ok();
-                let d = <$r>::from_u32(0x1234_5678).store::<BigEndianLsb0>(&mut buf, idx).is_ok();
-                let mut it = RawDataSlice::<$r, BigEndianLsb0>::new(&buf).into_iter();
+                let a = <$r>::load::<LittleEndianMsb0>(buf, idx).is_some();
+                let b = <$r>::load::<BigEndianLsb0>(buf, idx).is_some();
+                let c = <$r>::from_u32(0x1234_5678).store::<LittleEndianMsb0>(buf, idx).is_ok();
+                let d = <$r>::from_u32(0x1234_5678).store::<BigEndianLsb0>(buf, idx).is_ok();
+                let mut it = RawDataSlice::<$r, BigEndianLsb0>::new(buf).into_iter();
                 let e = it.nth(idx).is_some();
                 let _ = it.size_hint();
                 (a, b, c, d, e)
@@ -551,12 +553,13 @@ fn rejections(ctx: &mut Ctx, rng: &mut Rng) {
         }};
     }
     ls!(RawU1);
+    ls!(RawU2);
     ls!(RawU4);
     ls!(RawU8);
     ls!(RawU16);
     ls!(RawU24);
     ls!(RawU32);
-    ctx.nontrivial(egmon::rng::mix(egmon::rng::mix(p.x as u64, p.y as u64), idx as u64));
+    ctx.nontrivial(egmon::rng::mix(egmon::rng::mix(p.x as u64, p.y as u64), egmon::rng::mix(idx as u64, buf_len as u64)));
 }
 
 /// draws a drawable on a real target (a Framebuffer) under the monitors
